@@ -257,7 +257,13 @@ def argcheck(R):
                 continue
             is_test = n.kind == 'test' and isinstance(n.ast, ast.Call) and isinstance(n.ast.func, ast.Name) \
                 and n.ast.func.id == 'isinstance' and U(n.ast.args[0]) == param
-            if not is_test:
+            # a private immutable copy taken first - `param = bytes(param)` / `str(param)` - is a conversion, not a use:
+            # what is used afterwards is the copy (whose type the remaining tests still establish)
+            is_conv = n.kind == 'stmt' and isinstance(n.ast, ast.Assign) and len(n.ast.targets) == 1 \
+                and U(n.ast.targets[0]) == param and isinstance(n.ast.value, ast.Call) \
+                and isinstance(n.ast.value.func, ast.Name) and n.ast.value.func.id == ty \
+                and [U(a_) for a_ in n.ast.value.args] == [param] and not n.ast.value.keywords
+            if not is_test and not is_conv:
                 uses.append(n)
         need(uses, '%s: parameter %s is never used' % (q, param))
         bad = []
@@ -667,7 +673,7 @@ def mask(R):
         from ..consteval import module_consts
         tv = module_consts(R, 'mask').get('_XOR_TABLE')
         try:
-            okx = isinstance(tv, list) and len(tv) == 256 and all(bytes(tv[b]) == bytes(a ^ b for a in range(256)) for b in range(256))
+            okx = isinstance(tv, (list, tuple)) and len(tv) == 256 and all(bytes(tv[b]) == bytes(a ^ b for a in range(256)) for b in range(256))
         except Exception:
             okx = False
     R.ob('C03.mask', 'XOR tables', okx, '_XOR_TABLE is not [bytes(a ^ b for a in range(256)) for b in range(256)]',
